@@ -572,7 +572,7 @@ def check_C10(ctx):
 
 def check_C11(ctx):
     t = ctx.tier
-    res = run_family(ctx, "typelit", "TypeLit", ["TypeLit_gen_%s.cfg" % t], "TypeLitTrace", shard=6000)
+    res = run_family(ctx, "typelit", "TypeLit", ["TypeLit_gen_%s.cfg" % t, "TypeLit_gen_%s2.cfg" % t], "TypeLitTrace", shard=6000)
     fails = vlib.collect_failures(res["trace"], res["bad"], "typelit", only_prefix="C11")
     tr = res["trace"]
     cov = {
